@@ -41,7 +41,9 @@ def strategy_impl(draw, tier):
     for n in padded:
         L = gen.pos_len(by_name[n]["n"], data_pos[n])
         wmax = max(L, 0)
-        widths[n] = [draw(st.integers(0, wmax)), draw(st.integers(0, wmax))]
+        # widths up to the axis length as a rule; now and then wider than the axis (several periods / several copies of the edge)
+        wide = draw(st.integers(0, 3)) == 0
+        widths[n] = [draw(st.integers(0, 2 * wmax + 1 if wide else wmax)), draw(st.integers(0, 2 * wmax + 1 if wide else wmax))]
     extra = draw(gen.extra_dims())
     dims = [gen.dim_name(n, data_pos[n]) for n in padded + carried] + [e[0] for e in extra]
     sizes = {gen.dim_name(n, data_pos[n]): gen.pos_len(by_name[n]["n"], data_pos[n]) for n in padded + carried}
@@ -83,7 +85,7 @@ def table_cases():
         vx = [[float(10 * j + i) for i in range(Lx)] for j in range(3)]
         for rule in M.RULES:
             for label, grid, cb, cf in gen.rule_sources(rule):
-                for w in ([1, 0], [0, 2], [2, 1], [Lx, Lx]):
+                for w in ([1, 0], [0, 2], [2, 1], [Lx, Lx], [1, Lx + 2], [Lx + 1, 2], [2 * Lx + 1, Lx + 1]):
                     out.append({"axes": [ax], "grid": grid, "call_boundary": cb, "call_fill": cf, "widths": {"X": w}, "data_pos": {"X": pos},
                                 "dims": ["e0", gen.dim_name("X", pos)], "values": vx, "reverse_mappings": False, "decoy_first": False,
                                 "layout": "C", "arg_types": "plain"})
